@@ -445,28 +445,28 @@ def step (H : Hashes) (dirLen : Nat) (s : State) : Op → State × Resp
           match s.tree dbd with
           | none => (s, .err .NoSuchBucket)
           | some _ =>
-            match s.mkdirAll dbd dp.dropLast with
-            | none => (s, .err .InternalError)
-            | some s1 =>
-              match sn with
-              | .dir => (s1, .err .InternalError)                 -- `fs::copy` of a directory
-              | .file c =>
-                let t := (s1.tree dbd).getD []
-                match t.node dp with
-                | some .dir => (s1, .err .InternalError)
-                | _ =>
-                  -- `fs::copy` opens the destination with `truncate`: a copy onto itself empties the file
-                  let c' := if sbd = dbd ∧ sp = dp then [] else c
-                  let s2 := s1.setTree dbd (alInsert dp (.file c') t)
-                  let srcMeta := if sideTooLong sb sk false then none else alLookup (sb, sk) s2.metas
-                  match srcMeta with
-                  | none => (s2, .copied (some (etagOf H c')))
-                  | some m =>
-                    if sideTooLong db dk false then (s2, .err .InternalError)
-                    else
-                      -- the metadata file is copied the same way: onto itself it ends up empty
-                      let m' := if (sb, sk) = (db, dk) then MetaFile.corrupt else m
-                      ({ s2 with metas := alInsert (db, dk) m' s2.metas }, .copied (some (etagOf H c')))
+            match sn with
+            | .dir =>
+              -- `create_dir_all(parent)` happens first, then `fs::copy` refuses a directory source
+              match s.mkdirAll dbd dp.dropLast with
+              | none => (s, .err .InternalError)
+              | some s1 => (s1, .err .InternalError)
+            | .file c =>
+              -- `fs::copy` opens the destination with `truncate`: a copy onto itself empties the file.
+              -- `create_dir_all(parent)` + writing the destination file = `commitFile` (fails on a directory)
+              let c' := if sbd = dbd ∧ sp = dp then [] else c
+              let (s2, ok) := s.commitFile dbd dp c'
+              if !ok then (s2, .err .InternalError)
+              else
+                let srcMeta := if sideTooLong sb sk false then none else alLookup (sb, sk) s2.metas
+                match srcMeta with
+                | none => (s2, .copied (some (etagOf H c')))
+                | some m =>
+                  if sideTooLong db dk false then (s2, .err .InternalError)
+                  else
+                    -- the metadata file is copied the same way: onto itself it ends up empty
+                    let m' := if (sb, sk) = (db, dk) then MetaFile.corrupt else m
+                    ({ s2 with metas := alInsert (db, dk) m' s2.metas }, .copied (some (etagOf H c')))
   | .listObjectsV2 b pfx delim startAfter _maxKeys =>
     match bucketDir b with
     | none => (s, .err .InvalidBucketName)
